@@ -49,15 +49,16 @@ MANIFEST = {
                "C19_adaptor_brace_refuted: a brace in an unquoted value is not), C19_adaptor_structural (for every structured class diagram in the "
                "text domain loading = loading with the parser replaced by the structural reading), C19_adaptor_visibilities (wf_vis for everything "
                "read from a project file), C19_adaptor_calibration (the structured writer reproduces every row of both shipped class diagrams byte "
-               "for byte; 39 of 39 and 48 of 49 shipped blobs lie in the text domain -- 38 and 40 before the repair -- the one outside is an "
-               "association whose NAME holds a colon; on all of them the reader model returns the stated dictionary), "
-               "C19_adaptor_semantic_calibration (both shipped diagrams re-expressed as semantic diagrams, Gen/UmlSemShipped.v: ProtocolStack lies in "
-               "sdiagram_ok, TestClassDiagram does except for that one association), C19_adaptor_source_shape (literal pins, SplitOutsideQuotes "
+               "for byte; ALL 39 and 49 shipped blobs lie in the text domain -- 38 and 40 before the repair; one of them, an association whose NAME "
+               "holds a colon, through C19_adaptor_text_transparent_colon (row names with colons: the header id:name:type is cut at every colon, "
+               "top_pv_c states the resulting entries); on all of them the reader model returns the stated dictionary), "
+               "C19_adaptor_semantic_calibration (both shipped diagrams re-expressed as semantic diagrams, Gen/UmlSemShipped.v -- content as the "
+               "real adaptor reads it, layout of the semantic writer: BOTH lie in sdiagram_ok), C19_adaptor_source_shape (literal pins, SplitOutsideQuotes "
                "included), C19_adaptor_name_refuted (operator< is read as operator: K-C19-7). WRITER ASSUMPTION: Model/UmlWriter.v + Model/UmlSem.v tree_of (how Visual "
                "Paradigm lays a class diagram out), calibrated on the one shipped project at the structured-blob level. OUTSIDE THE SEMANTIC DOMAIN "
                "(inside the text / structural theorems only): inert nested elements (ModelView, Qualifier), reference lists and free-text HTML "
-               "properties among an element's own properties (the semantic noise is scalar properties), element names with ':' or the characters "
-               "mass_replace deletes (K-C19-7). TIES: the semantic diagram built from an object graph means that object graph (harness twin vs "
+               "properties among an element's own properties (the semantic noise is scalar properties), names of classes / packages / members "
+               "with ':' (association names may hold colons) or with the characters mass_replace deletes (K-C19-7). TIES: the semantic diagram built from an object graph means that object graph (harness twin vs "
                "rdiagram_of); the extracted "
                "writer encode_project writes project files that the REAL ExtractClassDiagram reads, compared field for field with the extracted "
                "rdiagram_of inside the domain; the Coq printer vs its Python twin tree by tree; parser / rendering helpers function level; damaged "
